@@ -1,7 +1,9 @@
 (* Proofs/Interleave.v -- C13: no update of the state word is lost under ANY interleaving of
    linearisable mutators (CAS retry loop / single read-modify-write call); the load-then-store
    shape of the pinned tree loses updates (regression section); the theorems instantiated with the
-   shapes atomics2v translated from the current c2/state.go (Gen/StateAtomics.v). *)
+   shapes atomics2v translated from the current c2/state.go (Gen/StateAtomics.v); and the channel
+   request protocol under EVERY interleaving of SetChannel with ChannelCanStop / ChannelCanStart
+   (the compound methods translated into decision trees over their atomic calls). *)
 From Coq Require Import Permutation.
 From XMT Require Import Base.Prelude Base.BitLemmas Model.State Model.Interleave Proofs.State Gen.StateAtomics.
 
@@ -665,3 +667,572 @@ Definition setlast_calls_keep_flags :=
   setlast_calls_keep_flags_mut _ _ _ gen_L1 gen_L2 gen_L3 gen_set_commit gen_unset_commit gen_setlast_commit.
 Definition concurrent_word_ok :=
   word_ok_mut _ _ _ gen_L1 gen_L2 gen_L3 gen_set_commit gen_unset_commit gen_setlast_commit.
+
+(* ==== every interleaving of two compound calls ======================================== *)
+Section MachineFacts.
+  Variables mset munset : mutator.
+  Local Notation pstep' := (pstep mset munset).
+  Local Notation pstep2' := (pstep2 mset munset).
+  Local Notation prun' := (prun mset munset).
+  Local Notation explore' := (explore mset munset).
+
+  Lemma pstep_finished w t : pfinished t = true -> pstep' w t = (w, t).
+  Proof. unfold pfinished, pstep. destruct (pt_prog t); try discriminate. reflexivity. Qed.
+
+  Lemma pstep2_finished_a c : pfinished (pc_a c) = true -> pstep2' c 0%nat = c.
+  Proof. destruct c as [[w a] b]. cbn [pc_a fst snd pstep2]. intros H. rewrite (pstep_finished w a H). reflexivity. Qed.
+
+  Lemma pstep2_finished_b c : pfinished (pc_b c) = true -> pstep2' c 1%nat = c.
+  Proof. destruct c as [[w a] b]. cbn [pc_b fst snd pstep2]. intros H. rewrite (pstep_finished w b H). reflexivity. Qed.
+
+  Lemma pstep2_other c i : pstep2' c (S (S i)) = c.
+  Proof. destruct c as [[w a] b]. reflexivity. Qed.
+
+  (* what `explore` computes is a statement about ALL schedules *)
+  Lemma explore_sound P : forall sched n c, explore' P n c = true -> P (prun' c sched) = true.
+  Proof.
+    induction sched as [|i sched IH]; intros n c H.
+    - cbn. destruct n; cbn [explore] in H; destruct (P c); congruence.
+    - unfold prun. cbn [fold_left]. fold (prun' (pstep2' c i) sched).
+      destruct i as [|[|i]].
+      + destruct n as [|n]; cbn [explore] in H; destruct (P c) eqn:Pc; try discriminate.
+        * destruct (pfinished (pc_a c)) eqn:Fa; try discriminate.
+          rewrite (pstep2_finished_a c Fa). apply (IH 0%nat). cbn [explore]. rewrite Pc, Fa. exact H.
+        * destruct (pfinished (pc_a c)) eqn:Fa.
+          -- rewrite (pstep2_finished_a c Fa). apply (IH (S n)). cbn [explore]. rewrite Pc, Fa. exact H.
+          -- destruct (pblocked mset munset (pc_a c)); try discriminate.
+             destruct (explore' P n (pstep2' c 0%nat)) eqn:E; try discriminate. exact (IH n _ E).
+      + destruct n as [|n]; cbn [explore] in H; destruct (P c) eqn:Pc; try discriminate.
+        * destruct (pfinished (pc_a c)) eqn:Fa; try discriminate.
+          rewrite (pstep2_finished_b c H). apply (IH 0%nat). cbn [explore]. rewrite Pc, Fa. exact H.
+        * destruct (pfinished (pc_b c)) eqn:Fb.
+          -- rewrite (pstep2_finished_b c Fb). apply (IH (S n)). cbn [explore]. rewrite Pc, Fb. exact H.
+          -- destruct (if pfinished (pc_a c) then true else if pblocked mset munset (pc_a c) then false else explore' P n (pstep2' c 0%nat));
+               try discriminate.
+             destruct (pblocked mset munset (pc_b c)); try discriminate. exact (IH n _ H).
+      + rewrite pstep2_other. exact (IH n c H).
+  Qed.
+End MachineFacts.
+
+(* ==== from the words made of protocol bits to ALL words ================================= *)
+(* The programs touch the word only through `load & m != 0` and Set/Unset of constants, all inside
+   proto_mask.  Writing a word as x | h (x = its protocol bits, h = all other bits), a run from
+   x | h and the run from x under the same schedule go through the same program points, and the
+   words stay x' | h. *)
+Definition psub (x : Z) : Prop := Z.land x proto_mask = x.
+Definition pdisj (h : Z) : Prop := Z.land h proto_mask = 0.
+
+Lemma psub_bit x i : psub x -> Z.testbit x i = true -> Z.testbit proto_mask i = true.
+Proof.
+  intros H T. unfold psub in H. rewrite <- H, Z.land_spec in T. apply andb_prop in T. tauto.
+Qed.
+
+Lemma pdisj_bit h i : pdisj h -> Z.testbit proto_mask i = true -> Z.testbit h i = false.
+Proof.
+  intros H T. assert (Z.testbit (Z.land h proto_mask) i = false) as E by (rewrite H; apply Z.bits_0).
+  rewrite Z.land_spec, T, andb_true_r in E. exact E.
+Qed.
+
+Lemma psub_eqb x : (Z.land x proto_mask =? x) = true -> psub x.
+Proof. apply Z.eqb_eq. Qed.
+
+Section Lift.
+  Variable h : Z.
+  Hypothesis Hh : pdisj h.
+  Local Notation lift := (fun x => Z.lor x h).
+
+  Lemma land_lift x m : psub m -> Z.land (Z.lor x h) m = Z.land x m.
+  Proof.
+    intros Hm. apply Z.bits_inj'. intros i _. rewrite !Z.land_spec, Z.lor_spec.
+    destruct (Z.testbit m i) eqn:Tm; [|rewrite !andb_false_r; reflexivity].
+    rewrite (pdisj_bit h i Hh (psub_bit m i Hm Tm)), orb_false_r. reflexivity.
+  Qed.
+
+  Lemma ld_and_lift x m : psub m -> ld_and (Z.lor x h) m = ld_and x m.
+  Proof. intros Hm. unfold ld_and. rewrite land_lift by exact Hm. reflexivity. Qed.
+
+  Lemma lift_inj x y : psub x -> psub y -> Z.lor x h = Z.lor y h -> x = y.
+  Proof.
+    intros Hx Hy E. apply Z.bits_inj'. intros i _.
+    assert (Z.testbit (Z.lor x h) i = Z.testbit (Z.lor y h) i) as B by (rewrite E; reflexivity).
+    rewrite !Z.lor_spec in B.
+    destruct (Z.testbit proto_mask i) eqn:Tm.
+    - rewrite (pdisj_bit h i Hh Tm), !orb_false_r in B. exact B.
+    - destruct (Z.testbit x i) eqn:Tx; [rewrite (psub_bit x i Hx Tx) in Tm; discriminate|].
+      destruct (Z.testbit y i) eqn:Ty; [rewrite (psub_bit y i Hy Ty) in Tm; discriminate|]. reflexivity.
+  Qed.
+
+  Lemma lift_eqb x y : psub x -> psub y -> (Z.lor x h =? Z.lor y h) = (x =? y).
+  Proof.
+    intros Hx Hy. destruct (Z.eqb_spec x y) as [->|N]; [apply Z.eqb_refl|].
+    apply Z.eqb_neq. intros E. exact (N (lift_inj x y Hx Hy E)).
+  Qed.
+
+  Lemma lor_lift x a : Z.lor (Z.lor x h) a = Z.lor (Z.lor x a) h.
+  Proof. rewrite <- !Z.lor_assoc, (Z.lor_comm h a). reflexivity. Qed.
+
+  Lemma psub_lor x a : psub x -> psub a -> psub (Z.lor x a).
+  Proof. unfold psub. intros Hx Ha. rewrite Z.land_lor_distr_l, Hx, Ha. reflexivity. Qed.
+
+  Lemma ldiff_lift x a : psub a -> Z.ldiff (Z.lor x h) a = Z.lor (Z.ldiff x a) h.
+  Proof.
+    intros Ha. apply Z.bits_inj'. intros i _. rewrite Z.ldiff_spec, !Z.lor_spec, Z.ldiff_spec.
+    destruct (Z.testbit a i) eqn:Ta.
+    - rewrite (pdisj_bit h i Hh (psub_bit a i Ha Ta)). rewrite !andb_false_r. reflexivity.
+    - rewrite !andb_true_r. reflexivity.
+  Qed.
+
+  Lemma psub_ldiff x a : psub x -> psub (Z.ldiff x a).
+  Proof.
+    unfold psub. intros Hx. apply Z.bits_inj'. intros i _. rewrite Z.land_spec, !Z.ldiff_spec.
+    destruct (Z.testbit x i) eqn:Tx; [|reflexivity].
+    rewrite (psub_bit x i Hx Tx), andb_true_r. reflexivity.
+  Qed.
+
+  (* the machine: Set and Unset are compare-and-swap loops that or / and-not their argument in *)
+  Variables mset munset : mutator.
+  Variables es eu : expr.
+  Hypothesis Hset_ops : call_ops mset munset true = [ALoad; ACas es].
+  Hypothesis Hunset_ops : call_ops mset munset false = [ALoad; ACas eu].
+  Hypothesis Hset_ev : forall cur a, eval es cur a = Z.lor cur a.
+  Hypothesis Hunset_ev : forall cur a, eval eu cur a = Z.ldiff cur a.
+
+  Local Notation pstep' := (pstep mset munset).
+
+  Definition Rw (wf wx : Z) : Prop := wf = Z.lor wx h /\ psub wx.
+  Definition Rt (tf tx : pthread) : Prop :=
+    pt_prog tf = pt_prog tx /\ pt_k tf = pt_k tx /\ prog_in (pt_prog tx) = true /\
+    (pt_k tx = 0%nat \/ (pt_k tx = 1%nat /\ pt_reg tf = Z.lor (pt_reg tx) h /\ psub (pt_reg tx))).
+
+  Lemma Rt_start p : prog_in p = true -> Rt (pstart p) (pstart p).
+  Proof. intros H. unfold Rt, pstart. cbn [pt_prog pt_k pt_reg]. auto. Qed.
+
+  Lemma pstep_lift wf wx tf tx :
+    Rw wf wx -> Rt tf tx ->
+    Rw (fst (pstep' wf tf)) (fst (pstep' wx tx)) /\ Rt (snd (pstep' wf tf)) (snd (pstep' wx tx)).
+  Proof.
+    intros [-> Hwx] (Hp & Hk & Hin & Hr).
+    destruct tf as [pf kf rf], tx as [px kx rx]. cbn [pt_prog pt_k pt_reg] in *. subst pf kf.
+    unfold pstep. cbn [pt_prog pt_k pt_reg].
+    destruct px as [b|m pa pb|set arg k|].
+    - cbn [fst snd]. split; [split; [reflexivity|exact Hwx]|]. unfold Rt. cbn [pt_prog pt_k pt_reg]. auto.
+    - cbn [prog_in] in Hin. apply andb_prop in Hin. destruct Hin as [Hin Hb]. apply andb_prop in Hin. destruct Hin as [Hm Ha].
+      rewrite (ld_and_lift wx m (psub_eqb m Hm)). cbn [fst snd].
+      split; [split; [reflexivity|exact Hwx]|]. apply Rt_start. destruct (ld_and wx m); assumption.
+    - cbn [prog_in] in Hin. apply andb_prop in Hin. destruct Hin as [Harg Hk].
+      apply psub_eqb in Harg.
+      assert (exists e, call_ops mset munset set = [ALoad; ACas e] /\
+                        forall cur, eval e cur arg = if set then Z.lor cur arg else Z.ldiff cur arg) as (e & Hops & Hev).
+      { destruct set; [exists es|exists eu]; split; auto. }
+      rewrite Hops.
+      destruct Hr as [->|(-> & -> & Hrx)]; cbn [nth_error step_of length Nat.leb fst snd].
+      + split; [split; [reflexivity|exact Hwx]|]. unfold Rt. cbn [pt_prog pt_k pt_reg prog_in].
+        split; [reflexivity|]. split; [reflexivity|]. split.
+        { apply andb_true_intro. split; [apply Z.eqb_eq; exact Harg|exact Hk]. }
+        right. auto.
+      + rewrite (lift_eqb wx rx Hwx Hrx). destruct (wx =? rx); cbn [Nat.leb fst snd].
+        * rewrite !Hev. split; [|apply Rt_start; exact Hk].
+          destruct set.
+          -- rewrite lor_lift. split; [reflexivity|apply psub_lor; assumption].
+          -- rewrite ldiff_lift by exact Harg. split; [reflexivity|apply psub_ldiff; assumption].
+        * split; [split; [reflexivity|exact Hwx]|]. unfold Rt. cbn [pt_prog pt_k pt_reg prog_in].
+          split; [reflexivity|]. split; [reflexivity|]. split.
+          { apply andb_true_intro. split; [apply Z.eqb_eq; exact Harg|exact Hk]. }
+          left. reflexivity.
+    - cbn [fst snd]. split; [split; [reflexivity|exact Hwx]|]. unfold Rt. cbn [pt_prog pt_k pt_reg]. auto.
+  Qed.
+
+  Definition Rc (cf cx : pconfig) : Prop :=
+    Rw (pc_word cf) (pc_word cx) /\ Rt (pc_a cf) (pc_a cx) /\ Rt (pc_b cf) (pc_b cx).
+
+  Lemma pstep2_lift cf cx i : Rc cf cx -> Rc (pstep2 mset munset cf i) (pstep2 mset munset cx i).
+  Proof.
+    destruct cf as [[wf af] bf], cx as [[wx ax] bx]. unfold Rc. cbn [pc_word pc_a pc_b fst snd].
+    intros (Hw & Ha & Hb). destruct i as [|[|i]]; cbn [pstep2].
+    - pose proof (pstep_lift wf wx af ax Hw Ha) as [Hw' Ha'].
+      destruct (pstep' wf af), (pstep' wx ax). cbn [fst snd] in *. auto.
+    - pose proof (pstep_lift wf wx bf bx Hw Hb) as [Hw' Hb'].
+      destruct (pstep' wf bf), (pstep' wx bx). cbn [fst snd] in *. auto.
+    - auto.
+  Qed.
+
+  Lemma prun_lift sched : forall cf cx, Rc cf cx -> Rc (prun mset munset cf sched) (prun mset munset cx sched).
+  Proof.
+    induction sched as [|i sched IH]; intros cf cx H; [exact H|].
+    unfold prun. cbn [fold_left]. apply IH. apply pstep2_lift. exact H.
+  Qed.
+
+  Lemma run_alone_lift n : forall wf wx tf tx, Rw wf wx -> Rt tf tx ->
+    fst (run_alone mset munset n wf tf) = fst (run_alone mset munset n wx tx) /\
+    Rw (snd (run_alone mset munset n wf tf)) (snd (run_alone mset munset n wx tx)).
+  Proof.
+    induction n as [|n IH]; intros wf wx tf tx Hw Ht; cbn [run_alone].
+    - unfold pret. destruct Ht as (-> & _). cbn [fst snd]. auto.
+    - assert (pfinished tf = pfinished tx) as -> by (unfold pfinished; destruct Ht as (-> & _); reflexivity).
+      destruct (pfinished tx).
+      + unfold pret. destruct Ht as (-> & _). cbn [fst snd]. auto.
+      + pose proof (pstep_lift wf wx tf tx Hw Ht) as [Hw' Ht'].
+        destruct (pstep' wf tf), (pstep' wx tx). cbn [fst snd] in *. exact (IH _ _ _ _ Hw' Ht').
+  Qed.
+End Lift.
+
+(* the constants of the protocol lie inside proto_mask *)
+Lemma psub_consts :
+  psub stateClosed /\ psub stateClosing /\ psub stateChannel /\ psub stateChannelValue /\
+  psub stateChannelUpdated /\ psub stateChannelProxy.
+Proof. repeat split. Qed.
+
+Section LiftProps.
+  Variable h : Z.
+  Hypothesis Hh : pdisj h.
+  Variables mset munset : mutator.
+  Variables es eu : expr.
+  Hypothesis Hset_ops : call_ops mset munset true = [ALoad; ACas es].
+  Hypothesis Hunset_ops : call_ops mset munset false = [ALoad; ACas eu].
+  Hypothesis Hset_ev : forall cur a, eval es cur a = Z.lor cur a.
+  Hypothesis Hunset_ev : forall cur a, eval eu cur a = Z.ldiff cur a.
+
+  Ltac lift_getters :=
+    unfold chan_active, request_differs, st_channel_can_start, st_closing, st_closed, st_channel, st_channel_value,
+      st_channel_updated, st_channel_proxy;
+    destruct psub_consts as (S1 & S2 & S3 & S4 & S5 & S6);
+    rewrite ?(ld_and_lift h Hh _ _ S1), ?(ld_and_lift h Hh _ _ S2), ?(ld_and_lift h Hh _ _ S3),
+      ?(ld_and_lift h Hh _ _ S4), ?(ld_and_lift h Hh _ _ S5), ?(ld_and_lift h Hh _ _ S6).
+
+  Lemma protocol_ok_lift poller e x0 cf cx :
+    prog_in poller = true -> psub x0 -> Rc h cf cx ->
+    protocol_ok mset munset poller e (Z.lor x0 h) cf = protocol_ok mset munset poller e x0 cx.
+  Proof.
+    intros Hp Hx0 (Hw & Ha & Hb). destruct cf as [[wf af] bf], cx as [[wx ax] bx].
+    cbn [pc_word pc_a pc_b fst snd] in *. destruct Hw as [-> Hwx].
+    unfold protocol_ok, pret.
+    destruct Ha as (-> & _). destruct Hb as (-> & _).
+    pose proof (run_alone_lift h Hh mset munset es eu Hset_ops Hunset_ops Hset_ev Hunset_ev 64
+                  (Z.lor wx h) wx (pstart poller) (pstart poller) (conj eq_refl Hwx) (Rt_start h poller Hp)) as [Hr [Hw2 Hs2]].
+    unfold run_prog.
+    destruct (run_alone mset munset 64 (Z.lor wx h) (pstart poller)) as [r2 w2].
+    destruct (run_alone mset munset 64 wx (pstart poller)) as [r2' w2'].
+    cbn [fst snd] in *. subst r2 w2.
+    lift_getters. reflexivity.
+  Qed.
+
+  Lemma canstart_ok_lift e x0 cf cx :
+    psub x0 -> Rc h cf cx -> canstart_ok e (Z.lor x0 h) cf = canstart_ok e x0 cx.
+  Proof.
+    intros Hx0 (Hw & Ha & Hb). destruct cf as [[wf af] bf], cx as [[wx ax] bx].
+    cbn [pc_word pc_a pc_b fst snd] in *. destruct Hw as [-> Hwx].
+    unfold canstart_ok, pret. destruct Ha as (-> & _). destruct Hb as (-> & _).
+    lift_getters. reflexivity.
+  Qed.
+
+  (* every word splits into its protocol bits and the rest *)
+  Lemma split_word w : w = Z.lor (Z.land w proto_mask) (Z.ldiff w proto_mask) /\
+                       psub (Z.land w proto_mask) /\ pdisj (Z.ldiff w proto_mask) /\
+                       In (Z.land w proto_mask) (submasks proto_mask).
+  Proof.
+    split; [rewrite Z.lor_comm; symmetry; apply Z.lor_ldiff_and|].
+    assert (psub (Z.land w proto_mask)) as Hs.
+    { unfold psub. rewrite <- Z.land_assoc, Z.land_diag. reflexivity. }
+    split; [exact Hs|]. split; [apply Z.land_ldiff|].
+    unfold submasks. apply filter_In. split; [|apply Z.eqb_eq; exact Hs].
+    apply in_flag_states.
+    assert (Z.land w proto_mask = Z.land w proto_mask mod 2 ^ 16) as E.
+    { rewrite <- Z.land_ones by lia. rewrite <- Z.land_assoc. reflexivity. }
+    rewrite E. change (2 ^ 16) with 65536. apply Z.mod_pos_bound. lia.
+  Qed.
+End LiftProps.
+
+(* ---- the protocol theorems for any Set/Unset that are compare-and-swap loops ---------- *)
+Section Protocol.
+  Variables mset munset : mutator.
+  Variables es eu : expr.
+  Hypothesis Hset_ops : call_ops mset munset true = [ALoad; ACas es].
+  Hypothesis Hunset_ops : call_ops mset munset false = [ALoad; ACas eu].
+  Hypothesis Hset_ev : forall cur a, eval es cur a = Z.lor cur a.
+  Hypothesis Hunset_ev : forall cur a, eval eu cur a = Z.ldiff cur a.
+
+  Theorem protocol_all_words (poller sc : prog) (e : bool) :
+    prog_in poller = true -> prog_in sc = true ->
+    forallb (fun x => explore mset munset (protocol_ok mset munset poller e x) protocol_fuel (pinit x sc poller))
+            (submasks proto_mask) = true ->
+    forall w0 sched, protocol_ok mset munset poller e w0 (prun mset munset (pinit w0 sc poller) sched) = true.
+  Proof.
+    intros Hp Hs Hall w0 sched.
+    destruct (split_word w0) as (Ew & Hx & Hh & Hin).
+    set (x0 := Z.land w0 proto_mask) in *. set (h := Z.ldiff w0 proto_mask) in *.
+    rewrite forallb_forall in Hall. specialize (Hall x0 Hin).
+    pose proof (explore_sound mset munset _ sched _ _ Hall) as Px.
+    rewrite <- Px. rewrite Ew at 1.
+    apply (protocol_ok_lift h Hh mset munset es eu Hset_ops Hunset_ops Hset_ev Hunset_ev poller e x0); auto.
+    apply (prun_lift h Hh mset munset es eu Hset_ops Hunset_ops Hset_ev Hunset_ev).
+    rewrite Ew. unfold Rc, pinit. cbn [pc_word pc_a pc_b fst snd].
+    split; [split; [reflexivity|exact Hx]|]. split; apply Rt_start; assumption.
+  Qed.
+
+  Theorem canstart_all_words (poller sc : prog) (e : bool) :
+    prog_in poller = true -> prog_in sc = true ->
+    forallb (fun x => explore mset munset (canstart_ok e x) protocol_fuel (pinit x sc poller))
+            (submasks proto_mask) = true ->
+    forall w0 sched, canstart_ok e w0 (prun mset munset (pinit w0 sc poller) sched) = true.
+  Proof.
+    intros Hp Hs Hall w0 sched.
+    destruct (split_word w0) as (Ew & Hx & Hh & Hin).
+    set (x0 := Z.land w0 proto_mask) in *. set (h := Z.ldiff w0 proto_mask) in *.
+    rewrite forallb_forall in Hall. specialize (Hall x0 Hin).
+    pose proof (explore_sound mset munset _ sched _ _ Hall) as Px.
+    rewrite <- Px. rewrite Ew at 1.
+    apply (canstart_ok_lift h Hh e x0); auto.
+    apply (prun_lift h Hh mset munset es eu Hset_ops Hunset_ops Hset_ev Hunset_ev).
+    rewrite Ew. unfold Rc, pinit. cbn [pc_word pc_a pc_b fst snd].
+    split; [split; [reflexivity|exact Hx]|]. split; apply Rt_start; assumption.
+  Qed.
+
+  (* a program alone: one load per test, Set/Unset succeed at the first compare-and-swap *)
+  Lemma run_ret n w b : run_alone mset munset n w (pstart (PRet b)) = (Some b, w).
+  Proof. destruct n; reflexivity. Qed.
+
+  Lemma run_test n w m a b :
+    run_alone mset munset (S n) w (pstart (PTest m a b)) =
+    run_alone mset munset n w (pstart (if ld_and w m then a else b)).
+  Proof. reflexivity. Qed.
+
+  Lemma run_call n w set arg k :
+    run_alone mset munset (S (S n)) w (pstart (PCall set arg k)) =
+    run_alone mset munset n (if set then st_set w arg else st_unset w arg) (pstart k).
+  Proof.
+    cbn [run_alone pfinished pstart pt_prog]. unfold pstep at 1. cbn [pt_prog pt_k pt_reg pstart].
+    destruct set; [rewrite Hset_ops|rewrite Hunset_ops]; cbn [nth_error step_of length Nat.leb];
+      unfold pstep; cbn [pt_prog pt_k pt_reg pfinished]; [rewrite Hset_ops|rewrite Hunset_ops];
+      cbn [nth_error step_of length Nat.leb]; rewrite Z.eqb_refl; cbn [Nat.leb];
+      [rewrite Hset_ev|rewrite Hunset_ev]; reflexivity.
+  Qed.
+End Protocol.
+
+(* ---- regression: SetChannel raising the notice BEFORE it changes the request ------------ *)
+Section RegressProtocol.
+  (* compare-and-swap Set / Unset (the repaired shape), the poller of the pinned tree, and a
+     SetChannel that raises the notice first and changes the standing request second *)
+  Definition cas_set : mutator := Mutator CasLoop [ALoad; ACas (EOr ECur EArg)].
+  Definition cas_unset : mutator := Mutator CasLoop [ALoad; ACas (EAndNot ECur EArg)].
+  Definition ref_channelcanstop : prog :=
+    PTest 4 (PRet true) (PTest 8 (PRet true) (PTest 256
+      (PTest 1024 (PCall false 1024 (PTest 512 (PRet false) (PRet true))) (PTest 256 (PRet false) (PRet true)))
+      (PRet true))).
+  Definition swapped_setchannel (e : bool) : prog :=
+    if e then PTest 512 (PRet false) (PCall true 1024 (PCall true 512 (PRet true)))
+    else let go := PCall true 1024 (PCall false 512 (PRet true)) in
+         let val := PTest 512 go (PRet false) in
+         PTest 256 (PTest 2048 go val) val.
+
+  (* alone, the swapped order computes the same word and answer as SetChannel of Model/State.v *)
+  Lemma swapped_order_same_alone :
+    forallb (fun x => let '(r, w) := run_prog cas_set cas_unset (swapped_setchannel true) x in
+                      let '(r', w') := run_prog cas_set cas_unset (swapped_setchannel false) x in
+                      match r, r' with
+                      | Some b, Some b' => eqb b (fst (st_set_channel true x)) && (w =? snd (st_set_channel true x)) &&
+                                           eqb b' (fst (st_set_channel false x)) && (w' =? snd (st_set_channel false x))
+                      | _, _ => false
+                      end) (submasks proto_mask) = true.
+  Proof. vm_compute. reflexivity. Qed.
+
+  (* OFF: word Ready|Channel|ChannelValue, SetChannel(false) || ChannelCanStop.  The poller sees the
+     notice, consumes it and reads the OLD request: it answers "no stop", the notice is gone, the
+     request is lost (final word Ready|Channel: every later poll answers "no stop"). *)
+  Lemma swapped_order_loses_request :
+    exists w0 sched,
+      let c := prun cas_set cas_unset (pinit w0 (swapped_setchannel false) ref_channelcanstop) sched in
+      chan_active w0 = true /\ st_channel_updated w0 = false /\
+      pret (pc_a c) = Some true /\ pret (pc_b c) = Some false /\
+      st_channel_updated (pc_word c) = false /\ st_channel_value (pc_word c) = false /\
+      fst (run_prog cas_set cas_unset ref_channelcanstop (pc_word c)) = Some false /\
+      protocol_ok cas_set cas_unset ref_channelcanstop false w0 c = false.
+  Proof.
+    exists 770, [0; 0; 0; 0; 0; 1; 1; 1; 1; 1; 1; 1; 0; 0]%nat. vm_compute. repeat split.
+  Qed.
+
+  (* ON: word Ready|Channel (channel started by the peer), SetChannel(true) || ChannelCanStop: the
+     poller consumes the notice with the old value 0 and answers "stop" to a request to turn the
+     channel on *)
+  Lemma swapped_order_stops_on_request :
+    exists w0 sched,
+      let c := prun cas_set cas_unset (pinit w0 (swapped_setchannel true) ref_channelcanstop) sched in
+      chan_active w0 = true /\ st_channel_updated w0 = false /\
+      pret (pc_b c) = Some true /\
+      protocol_ok cas_set cas_unset ref_channelcanstop true w0 c = false.
+  Proof.
+    exists 258, [0; 0; 0; 1; 1; 1; 1; 1; 1; 1]%nat. vm_compute. repeat split.
+  Qed.
+End RegressProtocol.
+
+(* ---- what protocol_ok says, as propositions -------------------------------------------- *)
+Lemma protocol_ok_elim mset munset poller e w0 w ts tp :
+  protocol_ok mset munset poller e w0 (w, ts, tp) = true -> chan_active w0 = true ->
+  (forall rs, pret ts = Some rs -> rs = request_differs e w0) /\
+  (pret tp = Some true -> e = false \/ (st_channel_updated w0 = true /\ st_channel_value w0 = false)) /\
+  (pret ts = Some true -> forall rp, pret tp = Some rp ->
+     st_channel_value w = e /\
+     (st_channel_updated w = false -> rp = negb e) /\
+     (st_channel_updated w = true ->
+        exists w2, run_prog mset munset poller w = (Some (negb e), w2) /\
+                   st_channel_updated w2 = false /\ st_channel_value w2 = e)).
+Proof.
+  unfold protocol_ok. intros H Ha. rewrite Ha in H. cbn [negb orb] in H.
+  apply andb_prop in H. destruct H as [H H3]. apply andb_prop in H. destruct H as [H1 H2].
+  split; [|split].
+  - intros rs E. rewrite E in H1. apply eqb_prop in H1. exact H1.
+  - intros E. rewrite E in H2. destruct e; [right|left; reflexivity].
+    cbn [negb orb] in H2. apply andb_prop in H2. destruct H2 as [A B]. split; [exact A|].
+    destruct (st_channel_value w0); [discriminate|reflexivity].
+  - intros Es rp Ep. rewrite Es, Ep in H3.
+    apply andb_prop in H3. destruct H3 as [V H3]. apply eqb_prop in V. split; [exact V|].
+    destruct (st_channel_updated w) eqn:U.
+    + split; [discriminate|]. intros _.
+      destruct (run_prog mset munset poller w) as [r2 w2].
+      apply andb_prop in H3. destruct H3 as [H3 V2]. apply andb_prop in H3. destruct H3 as [R2 U2].
+      exists w2. destruct r2 as [b|]; [|discriminate]. apply eqb_prop in R2. subst b.
+      split; [reflexivity|]. split; [destruct (st_channel_updated w2); [discriminate|reflexivity]|apply eqb_prop; exact V2].
+    + split; [|discriminate]. intros _. apply eqb_prop. exact H3.
+Qed.
+
+Lemma canstart_ok_elim e w0 w ts tp :
+  canstart_ok e w0 (w, ts, tp) = true ->
+  (forall r, pret tp = Some r ->
+     r = st_channel_can_start w0 \/
+     r = negb (st_closed w0) && (st_channel w0 || (if request_differs e w0 then e else st_channel_value w0))) /\
+  (forall rs r, pret ts = Some rs -> pret tp = Some r ->
+     rs = request_differs e w0 /\ st_channel_value w = (if rs then e else st_channel_value w0) /\
+     st_channel_updated w = (rs || st_channel_updated w0)).
+Proof.
+  unfold canstart_ok. intros H. apply andb_prop in H. destruct H as [H1 H2]. split.
+  - intros r E. rewrite E in H1. apply orb_prop in H1. destruct H1 as [A|A]; apply eqb_prop in A; auto.
+  - intros rs r Es Ep. rewrite Es, Ep in H2.
+    apply andb_prop in H2. destruct H2 as [H2 C]. apply andb_prop in H2. destruct H2 as [A B].
+    apply eqb_prop in A. apply eqb_prop in B. apply eqb_prop in C. auto.
+Qed.
+
+(* ==== the compound methods translated from the CURRENT c2/state.go ======================= *)
+Definition gen_es : expr := match m_ops gen_set with [ALoad; ACas e] => e | _ => EConst 0 end.
+Definition gen_eu : expr := match m_ops gen_unset with [ALoad; ACas e] => e | _ => EConst 0 end.
+Lemma gen_set_ops : call_ops gen_set gen_unset true = [ALoad; ACas gen_es].  Proof. reflexivity. Qed.
+Lemma gen_unset_ops : call_ops gen_set gen_unset false = [ALoad; ACas gen_eu]. Proof. reflexivity. Qed.
+Lemma gen_es_ev cur a : eval gen_es cur a = Z.lor cur a.
+Proof. unfold gen_es; cbn [gen_set m_ops eval]; first [reflexivity | apply Z.lor_comm]. Qed.
+Lemma gen_eu_ev cur a : eval gen_eu cur a = Z.ldiff cur a.
+Proof. reflexivity. Qed.
+
+Lemma gen_protocol_progs_in :
+  prog_in gen_channelcanstop = true /\ prog_in gen_channelcanstart = true /\
+  prog_in (gen_setchannel true) = true /\ prog_in (gen_setchannel false) = true.
+Proof. repeat split. Qed.
+
+(* run alone, every translated compound method is the method of the sequential model *)
+Ltac run_sym :=
+  unfold run_prog; unfold stateClosed, stateClosing, stateChannel, stateChannelValue, stateChannelUpdated,
+    stateChannelProxy, stateSeen in *;
+  repeat first
+    [ rewrite (run_ret gen_set gen_unset)
+    | rewrite (run_call gen_set gen_unset gen_es gen_eu gen_set_ops gen_unset_ops gen_es_ev gen_eu_ev)
+    | rewrite (run_test gen_set gen_unset);
+      match goal with
+      | H : ld_and ?w ?m = _ |- context [if ld_and ?w ?m then _ else _] => rewrite H
+      | |- context [if ld_and ?w ?m then _ else _] => destruct (ld_and w m) eqn:?
+      end ];
+  cbn [negb andb orb fst snd]; try reflexivity.
+
+Theorem gen_tag_meaning w : run_prog gen_set gen_unset gen_tag w = (Some (fst (st_tag w)), snd (st_tag w)).
+Proof. unfold gen_tag, st_tag, st_seen. run_sym. Qed.
+
+Theorem gen_channelcanstart_meaning w :
+  run_prog gen_set gen_unset gen_channelcanstart w = (Some (st_channel_can_start w), w).
+Proof. unfold gen_channelcanstart, st_channel_can_start, st_closed, st_channel, st_channel_value. run_sym. Qed.
+
+Theorem gen_channelcanstop_meaning w :
+  run_prog gen_set gen_unset gen_channelcanstop w = (Some (fst (st_channel_can_stop w)), snd (st_channel_can_stop w)).
+Proof.
+  unfold gen_channelcanstop, st_channel_can_stop, st_closing, st_closed, st_channel, st_channel_updated, st_channel_value.
+  run_sym.
+Qed.
+
+Theorem gen_setchannel_meaning e w :
+  run_prog gen_set gen_unset (gen_setchannel e) w = (Some (fst (st_set_channel e w)), snd (st_set_channel e w)).
+Proof.
+  destruct e; unfold gen_setchannel, st_set_channel, st_channel, st_channel_proxy, st_channel_value; run_sym.
+Qed.
+
+(* every interleaving, computed on the words made of protocol bits ... *)
+Lemma gen_protocol_explored e :
+  forallb (fun x => explore gen_set gen_unset (protocol_ok gen_set gen_unset gen_channelcanstop e x) protocol_fuel
+                            (pinit x (gen_setchannel e) gen_channelcanstop)) (submasks proto_mask) = true.
+Proof. destruct e; vm_compute; reflexivity. Qed.
+
+Lemma gen_canstart_explored e :
+  forallb (fun x => explore gen_set gen_unset (canstart_ok e x) protocol_fuel
+                            (pinit x (gen_setchannel e) gen_channelcanstart)) (submasks proto_mask) = true.
+Proof. destruct e; vm_compute; reflexivity. Qed.
+
+(* ... and lifted to every word, every schedule *)
+Theorem gen_protocol_ok e w0 sched :
+  protocol_ok gen_set gen_unset gen_channelcanstop e w0
+              (prun gen_set gen_unset (pinit w0 (gen_setchannel e) gen_channelcanstop) sched) = true.
+Proof.
+  destruct gen_protocol_progs_in as (P1 & P2 & P3 & P4).
+  apply (protocol_all_words gen_set gen_unset gen_es gen_eu gen_set_ops gen_unset_ops gen_es_ev gen_eu_ev).
+  - exact P1.
+  - destruct e; assumption.
+  - apply gen_protocol_explored.
+Qed.
+
+Theorem gen_canstart_ok e w0 sched :
+  canstart_ok e w0 (prun gen_set gen_unset (pinit w0 (gen_setchannel e) gen_channelcanstart) sched) = true.
+Proof.
+  destruct gen_protocol_progs_in as (P1 & P2 & P3 & P4).
+  apply (canstart_all_words gen_set gen_unset gen_es gen_eu gen_set_ops gen_unset_ops gen_es_ev gen_eu_ev).
+  - exact P2.
+  - destruct e; assumption.
+  - apply gen_canstart_explored.
+Qed.
+
+(* SetChannel(e) on one thread, ChannelCanStop on another, a running channel, ANY schedule *)
+Theorem channel_protocol_concurrent (e : bool) (w0 : Z) (sched : list nat) :
+  chan_active w0 = true ->
+  let c := prun gen_set gen_unset (pinit w0 (gen_setchannel e) gen_channelcanstop) sched in
+  (forall rs, pret (pc_a c) = Some rs -> rs = request_differs e w0) /\
+  (pret (pc_b c) = Some true -> e = false \/ (st_channel_updated w0 = true /\ st_channel_value w0 = false)) /\
+  (pret (pc_a c) = Some true -> forall rp, pret (pc_b c) = Some rp ->
+     st_channel_value (pc_word c) = e /\
+     (st_channel_updated (pc_word c) = false -> rp = negb e) /\
+     (st_channel_updated (pc_word c) = true ->
+        exists w2, st_channel_can_stop (pc_word c) = (negb e, w2) /\
+                   st_channel_updated w2 = false /\ st_channel_value w2 = e)).
+Proof.
+  intros Ha c. pose proof (gen_protocol_ok e w0 sched) as H. fold c in H.
+  destruct c as [[w ts] tp]. cbn [pc_word pc_a pc_b fst snd].
+  destruct (protocol_ok_elim _ _ _ _ _ _ _ _ H Ha) as (H1 & H2 & H3).
+  split; [exact H1|]. split; [exact H2|].
+  intros Es rp Ep. destruct (H3 Es rp Ep) as (V & U0 & U1). split; [exact V|]. split; [exact U0|].
+  intros U. destruct (U1 U) as (w2 & R & A & B). exists w2.
+  rewrite gen_channelcanstop_meaning in R. injection R as R1 R2.
+  split; [|auto]. rewrite <- R1, <- R2. destruct (st_channel_can_stop w); reflexivity.
+Qed.
+
+(* SetChannel(e) on one thread, ChannelCanStart on another, any word, ANY schedule *)
+Theorem channel_can_start_concurrent (e : bool) (w0 : Z) (sched : list nat) :
+  let c := prun gen_set gen_unset (pinit w0 (gen_setchannel e) gen_channelcanstart) sched in
+  (forall r, pret (pc_b c) = Some r ->
+     r = st_channel_can_start w0 \/
+     r = negb (st_closed w0) && (st_channel w0 || (if request_differs e w0 then e else st_channel_value w0))) /\
+  (forall rs r, pret (pc_a c) = Some rs -> pret (pc_b c) = Some r ->
+     rs = request_differs e w0 /\ st_channel_value (pc_word c) = (if rs then e else st_channel_value w0) /\
+     st_channel_updated (pc_word c) = (rs || st_channel_updated w0)).
+Proof.
+  intros c. pose proof (gen_canstart_ok e w0 sched) as H. fold c in H.
+  destruct c as [[w ts] tp]. cbn [pc_word pc_a pc_b fst snd]. exact (canstart_ok_elim _ _ _ _ _ H).
+Qed.
+
+(* both calls return under the schedule "SetChannel to completion, then the poller" (the
+   hypotheses above are satisfiable) *)
+Lemma gen_protocol_completes :
+  forallb (fun x => let c := prun gen_set gen_unset (pinit x (gen_setchannel false) gen_channelcanstop)
+                                  (repeat 0%nat 8 ++ repeat 1%nat 8) in
+                    pfinished (pc_a c) && pfinished (pc_b c)) (submasks proto_mask) = true.
+Proof. vm_compute. reflexivity. Qed.
